@@ -46,6 +46,7 @@ def spec_strategy(draw):
         'ending': draw(st.sampled_from(['return', 'return', 'raise', 'exit_n'])),
         'slow_ms': draw(st.sampled_from([0, 0, 0, 1, 5])) if n <= 1200 else draw(st.sampled_from([0, 0, 0, 1])),
         'parent_level': draw(st.sampled_from([10, 10, 20, 30])),
+        'dup': draw(st.sampled_from([0, 0, 2, 3])),  # every 2nd/3rd record repeats the text of its predecessor
     }
 
 
@@ -56,7 +57,7 @@ def expected_records(spec):
         lvl = spec['levels'][i % len(spec['levels'])]
         eff = 40 if name == 'c20.quiet' else spec['parent_level']
         if lvl >= eff:
-            out.append((name, lvl, targets.log_message(i, spec['size'])))
+            out.append((name, lvl, targets.log_message(i, spec['size'], spec.get('dup', 0))))
     return out
 
 
